@@ -82,9 +82,27 @@ func firstDiff(a, b string) string {
 	return fmt.Sprintf("length %d != %d", len(la), len(lb))
 }
 
+var c18ColdCaptured bool
+
+// c18Tokens: one of every kind of token the lexer has a matcher or a decoder for.
+var c18Tokens = Prog{Name: "tokens", Src: "r = [0x1f, 0o17, 0b11, 12, 1.5e3, .5, 2j, 'a\\n\\x41', b'\\x00', r'\\d', \"\"\"t\"\"\", u'u', 1 if 0 else 2]\nr += [r[0] << 2, -r[1] ** 2 // 3]\n"}
+
 func c18Run(rc *core.RunCtx) {
 	scope := ScopeCorpus()
 	repo := RepoCorpus()
+	scope = append(scope, c18Tokens)
+	// before anything is compiled in this process: remember the start-of-process value of every
+	// package-level variable of the compiler that some function writes at run time (found by the
+	// instrumenter in the current sources; none on a tree whose compiler keeps no state), so that
+	// the interleaving part can start every execution cold
+	if !c18ColdCaptured {
+		c18ColdCaptured = true
+		for _, f := range []func() ([]string, []interface{}){parser.VerifRuntimeVars, symtable.VerifRuntimeVars, compile.VerifRuntimeVars} {
+			ns, ps := f()
+			verifrt.ColdCapture(ns, ps)
+		}
+	}
+	rc.Note("package_level_vars_written_at_run_time", fmt.Sprint(verifrt.ColdNames()))
 	// baselines first, before anything else was compiled in this process
 	before := c18Globals()
 	base := map[string]string{}
@@ -226,13 +244,14 @@ func c18Run(rc *core.RunCtx) {
 	rc.Part = "concurrent"
 	var tiny []Prog
 	for _, p := range scope {
-		if len(p.Src) <= 140 {
+		if len(p.Src) <= 140 && p.Name != c18Tokens.Name {
 			tiny = append(tiny, p)
 		}
 	}
 	if rc.Quick() && len(tiny) > 6 {
 		tiny = tiny[:6]
 	}
+	tiny = append(tiny, c18Tokens)
 	bounds := []int{1}
 	if !rc.Quick() {
 		bounds = []int{1, 2}
@@ -266,6 +285,9 @@ func c18Run(rc *core.RunCtx) {
 				}
 				res := e.Explore(func(x *explore.Exec) string {
 					var da, db string
+					// every execution starts cold: whatever the compiler's packages build lazily on
+					// first use is built again, by whichever of the two compilations gets there first
+					verifrt.ColdRestore()
 					x.Go("A", func() { da = c18Outcome(a, false) })
 					x.Go("B", func() { db = c18Outcome(b, false) })
 					x.Run()
